@@ -59,7 +59,7 @@ def present(rng, x_si, units, mode, default):
     return txt, (None, ('str', txt))
 
 
-def render_group(rng, t, pres, defaults):
+def render_group(rng, t, pres, defaults, omit_tref=False):
     """pres: 'default' | 'explicit' | 'nd' | 'mixed'"""
     lines = []
     coq = {}
@@ -70,7 +70,11 @@ def render_group(rng, t, pres, defaults):
         return pres
     m = mode() if pres != 'nd' else rng.choice(['default', 'explicit'])
     txt, c = present(rng, t['T_ref'], T_UNITS, m, defaults['temperature'])
-    lines.append('T_ref: %s' % txt)
+    if omit_tref and t['T_ref'] == 298.15:
+        # the documented default of the record: 298.15 K whatever the file's default temperature unit is
+        c = (None, ('str', '298.15 K'))
+    else:
+        lines.append('T_ref: %s' % txt)
     coq['T'] = c
     nd = pres == 'nd' or (pres == 'mixed' and rng.random() < 0.3)
     if t['H'] is not None:
@@ -109,29 +113,44 @@ def render_group(rng, t, pres, defaults):
         a, _ = present(rng, t['range'][0], T_UNITS, mode(), defaults['temperature'])
         b, _ = present(rng, t['range'][1], T_UNITS, mode(), defaults['temperature'])
         lines.append('range: [%s, %s]' % (a, b))
+    if not lines:
+        lines.append('T_ref: 298.15 K')     # a record has to be a mapping
     return lines, coq
 
 
-def write_lib(root, truths, pres, rng, with_units_block=True):
+def rnd_defaults(rng):
+    return {'molar enthalpy': rng.choice(sorted(E_UNITS)), 'molar entropy': rng.choice(sorted(S_UNITS)),
+            'molar heat capacity': rng.choice(sorted(S_UNITS)), 'temperature': rng.choice(sorted(T_UNITS))}
+
+
+def write_lib(root, truths, pres, rng, with_units_block=True, split=False, omit_tref=False):
+    """split: the groups are spread over library.yaml and an included file, EACH with its own (different) block of default units"""
     if os.path.exists(root):
         shutil.rmtree(root)
     os.makedirs(root)
     with open(os.path.join(root, 'scheme.yaml'), 'w') as f:
         f.write('patterns: []\n')
-    defaults = {'molar enthalpy': rng.choice(sorted(E_UNITS)), 'molar entropy': rng.choice(sorted(S_UNITS)),
-                'molar heat capacity': rng.choice(sorted(S_UNITS)), 'temperature': rng.choice(sorted(T_UNITS))}
-    out = []
-    if with_units_block:
-        out.append('units:')
-        out += ['  %s: %s' % (k, v) for k, v in defaults.items()]
-    out.append('groups:')
+    names = list(truths)
+    parts = [('library.yaml', names)]
+    if split:
+        k = rng.randint(0, len(names) - 1)
+        parts = [('library.yaml', names[:k]), ('inc.yaml', names[k:])]
     coqs = {}
-    for g, t in truths.items():
-        lines, coq = render_group(rng, t, pres, defaults)
-        coqs[g] = coq
-        out.append("  '%s':\n    'thermochem':\n%s" % (g, '\n'.join('      ' + l for l in lines)))
-    with open(os.path.join(root, 'library.yaml'), 'w') as f:
-        f.write('\n'.join(out) + '\n')
+    for fname, gs in parts:
+        defaults = rnd_defaults(rng)
+        out = []
+        if fname == 'library.yaml' and split:
+            out.append('include: [inc.yaml]')
+        if with_units_block:
+            out.append('units:')
+            out += ['  %s: %s' % (k, v) for k, v in defaults.items()]
+        out.append('groups:' if gs else 'groups: {}')
+        for g in gs:
+            lines, coq = render_group(rng, truths[g], pres, defaults, omit_tref=omit_tref)
+            coqs[g] = coq
+            out.append("  '%s':\n    'thermochem':\n%s" % (g, '\n'.join('      ' + l for l in lines)))
+        with open(os.path.join(root, fname), 'w') as f:
+            f.write('\n'.join(out) + '\n')
     return os.path.join(root, 'library.yaml'), coqs
 
 
@@ -172,9 +191,15 @@ def run(ctx):
         truths = {g: truth(rng) for g in rng.sample(GROUPS, rng.randint(1, 3))}
         evalTs = [298.15, 300.0, 450.0, 1000.0]
         variants = []
-        for k, pres in enumerate(['default', 'explicit', 'nd', 'mixed', 'mixed'][:ctx.n(5, 5)]):
+        for k, pres in enumerate(['default', 'explicit', 'nd', 'mixed', 'mixed', 'split', 'notref']):
             root = os.path.join(vlib.WORK, 'c12_%d_%d' % (i, k))
-            path, coqs = write_lib(root, truths, pres, rng)
+            if pres == 'split':
+                path, coqs = write_lib(root, truths, rng.choice(['default', 'mixed']), rng, split=True)
+            elif pres == 'notref':
+                path, coqs = write_lib(root, truths, rng.choice(['default', 'mixed', 'explicit', 'nd']), rng, omit_tref=True,
+                                       split=rng.random() < 0.3)
+            else:
+                path, coqs = write_lib(root, truths, pres, rng)
             variants.append((pres, path, coqs))
             jobs.append({'op': 'load_tree', 'path': path, 'evalTs': evalTs})
             meta.append((i, pres, truths, coqs))
